@@ -130,6 +130,29 @@ pub fn run(data: &[u8], ctx: &mut Ctx) -> Outcome {
     ctx.class("route-A");
     ctx.class("route-B");
 
+    // --- a decoded / hand-assembled envelope whose encrypted subject declares a digest its content does
+    // not have: decrypt_subject must refuse it, or at least never hand out an envelope whose reported
+    // digests disagree with its own structure
+    if src.chance(48) {
+        let key = bridge::case_key();
+        let other = bc_envelope::Envelope::new(format!("forged content {}", src.below(1000)));
+        let subj_digest = ea.subject().digest().into_owned();
+        if other.digest().as_ref() != &subj_digest && !ea.subject().is_obscured() {
+            use dcbor::prelude::*;
+            let msg = key.encrypt_with_digest(other.tagged_cbor().to_cbor_data(), subj_digest, None::<bc_components::Nonce>);
+            if let Ok(forged_subject) = bc_envelope::Envelope::try_from(msg) {
+                let forged = nopanic!(ctx, ea.replace_subject(forged_subject), "forged-subject", "C01/forged-subject");
+                check!(ctx, forged.digest() == ea.digest(), "forged-subject", "C01/forged-subject", "a node with a digest-declaring encrypted subject has another digest than the original");
+                let r = nopanic!(ctx, forged.decrypt_subject(&key), "forged-subject", "C01/forged-subject");
+                if let Ok(r) = r {
+                    let lm = nopanic!(ctx, check_digests(&r), "forged-subject", "C01/forged-subject");
+                    tryp!(ctx, lm.map_err(|s| format!("decrypt_subject of a subject whose content does not match its declared digest returned an envelope whose digests disagree with its structure: {}", s)), "forged-subject", "C01/forged-subject");
+                }
+                ctx.class("forged-encrypted-subject");
+            }
+        }
+    }
+
     // --- history tail
     let steps = src.below(7);
     let e = if src.bool() { ea } else { eb };
